@@ -57,6 +57,13 @@ def _table_of(blocks, l, nargs, depth=10):
                     if st["k"] == "assign" and st["rv"]["k"] in ("ref", "rawptr") and st["rv"]["place"]["l"] == l and (st["rv"].get("mut") or st["rv"]["k"] == "rawptr"):
                         return None
             return l, len(rv["fields"]), rv["fields"]
+        if rv["k"] == "use" and rv["a"].get("const") is not None:
+            # a constant table whose allocation was decoded by the fact extractor
+            c = rv["a"]["const"]
+            t_ = c.get("tree") if isinstance(c.get("tree"), dict) else None
+            if t_ is not None and t_.get("tree") == "array" and 1 <= len(t_.get("elems", [])) <= MAX_ELEMS:
+                return l, len(t_["elems"]), [{"const": (e_ if "kind" in e_ else {"kind": "tree", "tree": e_, "has_ptrs": True})} for e_ in t_["elems"]]
+            return None
         if rv["k"] == "use":
             pl = rv["a"].get("copy") or rv["a"].get("move")
             if pl and len(pl["p"]) == 1 and isinstance(pl["p"][0], dict) and "f" in pl["p"][0] and str(pl["p"][0]["f"]).isdigit():
@@ -71,11 +78,19 @@ def _table_of(blocks, l, nargs, depth=10):
         if rv["k"] == "cast" and ("Unsize" in (rv.get("kind") or "") or "PointerCoercion" in (rv.get("kind") or "")):
             l = _op_local(rv["a"])
             continue
-        if rv["k"] == "ref" and not rv.get("mut") and not rv["place"]["p"]:
-            l = rv["place"]["l"]
+        if rv["k"] == "ref" and not rv.get("mut") and rv["place"]["p"] in ([], ["*"]):
+            l = rv["place"]["l"]      # &table, or a reborrow &*r of a reference to it
             continue
         return None
     return None
+
+
+import os as _os
+
+
+def _dbg(msg):
+    if _os.environ.get('L4SA_UNROLL_DEBUG'):
+        print('unroll:', msg)
 
 
 def unroll_literal_loops(prog, fn):
@@ -91,10 +106,23 @@ def unroll_literal_loops(prog, fn):
         # receiver: &mut it, it = slice::iter(view of the table) / into_iter(&table)
         rl = _op_local(t["args"][0])
         rds = _defs(blocks, rl) if rl is not None else []
+        for _ in range(3):      # &mut *r with r = &mut it
+            if len(rds) == 1 and rds[0][0] == "rv" and rds[0][2]["k"] == "ref" and rds[0][2]["place"]["p"] == ["*"]:
+                rds = _defs(blocks, rds[0][2]["place"]["l"])
+                _dbg("bb%d: skip at line %d" % (hb, 104))
+                continue
+            break
         if len(rds) != 1 or rds[0][0] != "rv" or rds[0][2]["k"] != "ref" or rds[0][2]["place"]["p"]:
+            _dbg("bb%d: skip at line %d" % (hb, 107))
             continue
         itl = rds[0][2]["place"]["l"]
         ids = _defs(blocks, itl)
+        for _ in range(4):      # `match into_iter(x) { mut iter => .. }` moves the iterator into its binding
+            if len(ids) == 1 and ids[0][0] == "rv" and ids[0][2]["k"] == "use" and _op_local(ids[0][2]["a"]) is not None:
+                ids = _defs(blocks, _op_local(ids[0][2]["a"]))
+                _dbg("bb%d: skip at line %d" % (hb, 113))
+                continue
+            break
         # `for` loops move the iterator through into_iter once more
         for _ in range(3):
             if len(ids) == 1 and ids[0][0] == "call" and ids[0][2].get("decl") == "core::iter::traits::collect::IntoIterator::into_iter" and ids[0][2].get("args"):
@@ -102,30 +130,44 @@ def unroll_literal_loops(prog, fn):
                 ind = _defs(blocks, inner) if inner is not None else []
                 if len(ind) == 1 and ind[0][0] == "call" and ind[0][2].get("decl") in ITER_CTORS:
                     ids = ind
+                    _dbg("bb%d: skip at line %d" % (hb, 122))
                     continue
             break
         if len(ids) != 1 or ids[0][0] != "call" or ids[0][2].get("decl") not in ITER_CTORS or not ids[0][2].get("args"):
+            _dbg("bb%d: skip at line %d" % (hb, 125))
             continue
-        by_ref = True
-        tab = _table_of(blocks, _op_local(ids[0][2]["args"][0]), fn.nargs)
+        aty = ((ids[0][2].get("arg_tys") or [""])[0] or "")
+        by_ref = not aty.startswith("[")          # `for x in ARRAY` hands the elements over by value, `.iter()` / `&ARRAY` by reference
+        a0 = ids[0][2]["args"][0]
+        if a0.get("const") is not None:
+            t_ = a0["const"].get("tree") if isinstance(a0["const"].get("tree"), dict) else None
+            tab = None
+            if t_ is not None and t_.get("tree") == "array" and 1 <= len(t_.get("elems", [])) <= MAX_ELEMS:
+                tab = (None, len(t_["elems"]), [{"const": (e_ if "kind" in e_ else {"kind": "tree", "tree": e_, "has_ptrs": True})} for e_ in t_["elems"]])
+        else:
+            tab = _table_of(blocks, _op_local(a0), fn.nargs)
         if tab is None:
+            _dbg("bb%d: skip at line %d" % (hb, 137))
             continue
         owner, n, elems = tab
         # header shape: next -> [discr(o)] switch None/Some
         sw = t["target"]
-        st_ = blocks[sw]["stmts"]
+        st_ = [x_ for x_ in blocks[sw]["stmts"] if x_["k"] == "assign"]
         tt = blocks[sw]["term"]
         if tt["k"] != "switch" or len(st_) != 1 or st_[0]["k"] != "assign" or st_[0]["rv"]["k"] != "discr" or st_[0]["rv"]["place"] != {"l": o, "p": []}:
+            _dbg("bb%d: skip at line %d" % (hb, 144))
             continue
         arms = {a["value"]: a["target"] for a in tt.get("arms", [])}
         none_t, some_t = arms.get(0), arms.get(1, tt.get("otherwise"))
         if none_t is None or some_t is None:
+            _dbg("bb%d: skip at line %d" % (hb, 148))
             continue
         # loop body: blocks reachable from the Some target without passing the header; the header must be the only way back
         body, todo = set(), [some_t]
         while todo:
             x = todo.pop()
             if x in body or x == hb or x == sw:
+                _dbg("bb%d: skip at line %d" % (hb, 154))
                 continue
             body.add(x)
             if len(body) > MAX_BODY:
@@ -134,6 +176,7 @@ def unroll_literal_loops(prog, fn):
                 if not blocks[s].get("cleanup"):
                     todo.append(s)
         if len(body) > MAX_BODY:
+            _dbg("bb%d: skip at line %d" % (hb, 162))
             continue
         # blocks of the "body" from which the header cannot be reached again are exits, not body: leave them shared
         def reaches_header(x, seen=None):
@@ -144,11 +187,28 @@ def unroll_literal_loops(prog, fn):
                 return False
             seen.add(x)
             return any(reaches_header(s, seen) for s in succ_of(blocks[x]["term"]))
-        loop_blocks = sorted(x for x in body if reaches_header(x))
+        # the per-element region: the loop proper plus the exit tails only an element can take (a `break` with the element in
+        # hand), up to where they meet the code that also follows exhaustion
+        after_none, todo = set(), [none_t]
+        while todo:
+            x = todo.pop()
+            if x in after_none or x == hb or blocks[x].get("cleanup"):
+                _dbg("bb%d: skip at line %d" % (hb, 178))
+                continue
+            after_none.add(x)
+            todo.extend(succ_of(blocks[x]["term"]))
+        loop_blocks = sorted(x for x in body if reaches_header(x) or x not in after_none)
         if not loop_blocks or some_t not in loop_blocks:
+            _dbg("bb%d: skip at line %d" % (hb, 183))
             continue
         # the iterator must not be touched inside the body
-        if any(pl["l"] in (itl, rl) for x in loop_blocks for pl in _block_places(blocks[x])):
+        def touches(x):
+            b_ = blocks[x]
+            if b_["term"]["k"] == "drop":      # dropping the iterator on an early exit is not a use of its state
+                b_ = dict(b_, term={"k": "goto", "target": b_["term"].get("target")})
+            return any(pl["l"] in (itl, rl) for pl in _block_places(b_))
+        if any(touches(x) for x in loop_blocks):
+            _dbg("bb%d: skip at line %d" % (hb, 186))
             continue
         # temporaries private to the loop body get their own copy per clone, so that each clone's item is its own value
         inside = set(loop_blocks)
@@ -164,6 +224,7 @@ def unroll_literal_loops(prog, fn):
         used_outside = set()
         for b in blocks:
             if b["id"] in inside or b["id"] in (hb, sw) or b.get("cleanup"):
+                _dbg("bb%d: skip at line %d" % (hb, 201))
                 continue
             for pl in _block_places(b):
                 used_outside.add(pl["l"])
@@ -201,7 +262,8 @@ def unroll_literal_loops(prog, fn):
                 eop = {"copy": (eop.get("copy") or eop.get("move"))}
             head = {"id": len(blocks), "synthetic": True,
                     "stmts": [{"k": "assign", "lhs": {"l": ev, "p": []}, "rv": {"k": "use", "a": eop}, "at": at},       # the i-th element of the literal
-                              {"k": "assign", "lhs": {"l": el, "p": []}, "rv": {"k": "ref", "mut": False, "place": {"l": ev, "p": []}}, "at": at},
+                              ({"k": "assign", "lhs": {"l": el, "p": []}, "rv": {"k": "ref", "mut": False, "place": {"l": ev, "p": []}}, "at": at} if by_ref else
+                               {"k": "assign", "lhs": {"l": el, "p": []}, "rv": {"k": "use", "a": {"copy": {"l": ev, "p": []}}}, "at": at}),
                               {"k": "assign", "lhs": {"l": lm.get(o, o), "p": []}, "rv": {"k": "agg", "agg": "adt", "adt": "core::option::Option", "adt_local": False, "variant": "Some",
                                                                                           "field_names": ["0"], "fields": [{"move": {"l": el, "p": []}}]}, "at": at}],
                     "term": {"k": "goto", "target": remap[some_t], "at": at}}
@@ -247,7 +309,7 @@ def unroll_literal_loops(prog, fn):
         done.append("unrolled@bb%d x%d" % (hb, n))
     if not done:
         return fn
-    core._thread_jumps(blocks)
+    core._thread_jumps(blocks, max_new=800, rounds=160)
     d = {k: v for k, v in fn.d.items() if k not in ("blocks", "locals")}
     d["locals"] = locals_
     d["blocks"] = blocks
